@@ -833,6 +833,7 @@ func randomHistory(rng *rand.Rand, big bool) *History {
 	var wire []Pkt
 	dg := 0
 	firstData := map[[2]int]bool{}
+	synSeen := map[int]bool{}
 	for _, p := range ideal {
 		isFirst := false
 		if p.Kind == "data" {
@@ -866,6 +867,19 @@ func randomHistory(rng *rand.Rand, big bool) *History {
 			q := p
 			q.Dg, q.Fi, q.Fn = dg, 1, 1
 			wire = append(wire, q)
+		}
+		if p.Kind == "syn" {
+			synSeen[p.C] = true
+		}
+		if p.Kind == "data" && synSeen[p.C] && rng.Intn(10) == 0 {
+			// a retransmitted SYN (client) or SYN+ACK (server) recorded after data of that direction: the connection is
+			// established, the copy carries nothing and must change nothing
+			dg++
+			k := "syn"
+			if p.Dir == 2 {
+				k = "synack"
+			}
+			wire = append(wire, Pkt{C: p.C, Dir: p.Dir, Kind: k, From: 1, To: 0, Dg: dg, Fi: 1, Fn: 1})
 		}
 	}
 	// non-overlapping adjacent swaps (local reordering); FINs take part only in some histories
